@@ -3,11 +3,13 @@ package main
 import (
 	goecdsa "crypto/ecdsa"
 	goed25519 "crypto/ed25519"
+	"crypto/elliptic"
 	"crypto/sha256"
 	"crypto/sha512"
 	"fmt"
 	"math/big"
 	"math/rand"
+	"strconv"
 	"strings"
 
 	"github.com/ldclabs/cose/iana"
@@ -69,6 +71,31 @@ func execSig(op string, a []string) string {
 			return "new:ok sign:ok:" + hx(sig)
 		}
 		return fmt.Sprintf("new:ok sign:ok len=%d", len(sig))
+	case "sig.decode":
+		// sig.decode <alg> <hex>: the signature codec alone (RFC 9053 section 2.1: r || s, each of the curve's length)
+		alg, _ := strconv.Atoi(a[0])
+		c := ecCurveOf(alg)
+		if c == nil {
+			return "bad-op"
+		}
+		rr, ss, err := ecdsa.DecodeSignature(c, unhx(a[1]))
+		if err != nil {
+			return "err"
+		}
+		return "ok " + rr.String() + " " + ss.String()
+	case "sig.encode":
+		alg, _ := strconv.Atoi(a[0])
+		c := ecCurveOf(alg)
+		rr, ok1 := new(big.Int).SetString(a[1], 10)
+		ss, ok2 := new(big.Int).SetString(a[2], 10)
+		if c == nil || !ok1 || !ok2 {
+			return "bad-op"
+		}
+		b, err := ecdsa.EncodeSignature(c, rr, ss)
+		if err != nil {
+			return "err"
+		}
+		return "ok " + hx(b)
 	case "sig.verify":
 		// sig.verify <data> <sig> <key…> | <opsAfter…>
 		kt, after := splitBar(a[2:])
@@ -120,9 +147,46 @@ func mutateSig(r *rand.Rand, sig []byte) []byte {
 	}
 }
 
+func ecCurveOf(alg int) elliptic.Curve {
+	switch alg {
+	case iana.AlgorithmES256:
+		return elliptic.P256()
+	case iana.AlgorithmES384:
+		return elliptic.P384()
+	case iana.AlgorithmES512:
+		return elliptic.P521()
+	}
+	return nil
+}
+
 func genSigOps(r *rand.Rand, n int) []string {
 	var out []string
 	for i := 0; i < n; i++ {
+		if i%4 == 0 { // the signature codec at and around the fixed length, with leading-zero halves; integers at the size limit
+			ca := []int{iana.AlgorithmES256, iana.AlgorithmES384, iana.AlgorithmES512}[r.Intn(3)]
+			sz := (ecCurveOf(ca).Params().N.BitLen() + 7) / 8
+			l := []int{2 * sz, 2 * sz, 2*sz - 2, 2*sz - 1, 2*sz + 1, 2*sz + 2, sz, 2, 0, 2 * sz, 4 * sz}[r.Intn(11)]
+			sg := randBytes(r, l)
+			if r.Intn(2) == 0 && l >= 2 { // both halves start with a zero octet
+				sg[0], sg[l/2] = 0, 0
+			}
+			out = append(out, fmt.Sprintf("sig.decode %d %s", ca, hx(sg)))
+			lim := new(big.Int).Lsh(big.NewInt(1), uint(8*sz))
+			pick := func() *big.Int {
+				switch r.Intn(5) {
+				case 0:
+					return big.NewInt(int64(r.Intn(3)))
+				case 1:
+					return new(big.Int).Sub(lim, big.NewInt(1))
+				case 2:
+					return new(big.Int).Set(lim)
+				case 3:
+					return new(big.Int).Add(lim, big.NewInt(int64(1+r.Intn(1000))))
+				}
+				return new(big.Int).SetBytes(randBytes(r, 1+r.Intn(sz)))
+			}
+			out = append(out, fmt.Sprintf("sig.encode %d %s %s", ca, pick().String(), pick().String()))
+		}
 		alg := sigAlgs[r.Intn(len(sigAlgs))]
 		data := randBytes(r, msgLen(r, i%40 == 0))
 		after := "same"
@@ -179,6 +243,15 @@ func genSigOps(r *rand.Rand, n int) []string {
 					if alg == iana.AlgorithmES512 {
 						bad.x = new(big.Int).Sub(new(big.Int).Lsh(big.NewInt(1), 521), big.NewInt(1))
 					}
+				}
+				if r.Intn(3) == 0 { // wider than the curve's coordinates (up to the 66 octets CheckKey admits)
+					w := k.size() + 1 + r.Intn(66-k.size()+1)
+					if w > 66 {
+						w = 66
+					}
+					wide := randBytes(r, w)
+					wide[0] |= 1
+					bad.x = new(big.Int).SetBytes(wide)
 				}
 				bform = 3
 			case 0:
